@@ -1,2 +1,37 @@
-(* placeholder until the theorems are integrated *)
-From SE Require Import Spec.MatchSpec.
+(* C04 - Ordered glob mapping: the first matching rule wins.
+   Model: Model/Fsm.v (pkg/mapper/fsm/fsm.go after the FSM fixes), Model/Mapper.v.
+   Specification: Spec/MatchSpec.v (glob_match, first_match, spec_lookup). *)
+From SE Require Import Spec.MapperSpec Proofs.FsmProofs Proofs.MapperProofs.
+
+(* The FSM search with backtracking, for ALL rule lists, names and types, returns the first rule
+   in configuration order whose pattern matches component by component and whose type filter
+   admits the type, with the wildcard captures. *)
+Theorem C04_fsm_first_match : stmt_fsm_first_match.
+Proof. exact fsm_first_match_ok. Qed.
+Print Assumptions C04_fsm_first_match.
+
+(* The whole lookup of any configuration that loads: glob rules first (first match, or most
+   specific when ordering is disabled), otherwise the first matching regex rule, otherwise
+   unmapped. *)
+Theorem C04_lookup_is_spec : forall uni_word re_match heur_bt re_compiles,
+  stmt_lookup_is_spec uni_word re_match heur_bt re_compiles.
+Proof.
+  intros. apply lookup_is_spec_ok; [exact fsm_first_match_ok | exact fsm_most_specific_ok].
+Qed.
+Print Assumptions C04_lookup_is_spec.
+
+(* Rules that do not match the metric never change the outcome (inserted or removed anywhere) ... *)
+Theorem C04_irrelevant_rule : stmt_irrelevant_rule.
+Proof. exact irrelevant_rule_ok. Qed.
+Print Assumptions C04_irrelevant_rule.
+(* ... and neither do the rules after the first match. *)
+Theorem C04_later_rules_irrelevant : stmt_later_rules_irrelevant.
+Proof. exact later_rules_irrelevant_ok. Qed.
+Print Assumptions C04_later_rules_irrelevant.
+
+(* Non-vacuity: the two former defects, on the model. rules a.b.c , a.b ; lookup a.b -> rule 1 *)
+Example C04_prefix_rule :
+  fsm_get_mapping [ {| g_prio := 0; g_fields := [[x61];[x62];[x63]]; g_mmt := [] |};
+                    {| g_prio := 1; g_fields := [[x61];[x62]]; g_mmt := [] |} ]
+                  true false [x61;x2e;x62] s_counter = Some (1, []).
+Proof. vm_compute. reflexivity. Qed.
